@@ -296,12 +296,15 @@ func C04(p *core.Program, r *core.Report) {
 				"element":  q(`` + N + `.Type == html.ElementNode`),
 				"br":       q(`` + N + `.Data == "br"`),
 				"visible":  q(`domutil.IsProbablyVisible(` + N + `)`),
+				"script":   q(`` + N + `.Data == "script"`),
+				"style":    q(`` + N + `.Data == "style"`),
 				"children": q(`loop1(` + child + ` == nil)`),
 			},
 			Rules: []core.SpecRule{
 				{Name: "text node (no children)", Guard: core.And(core.A("text"), core.A("children")), Outcome: `write ((" " + ` + N + `.Data) + " ") => done`},
 				{Name: "text node", Guard: core.A("text"), Outcome: `write ((" " + ` + N + `.Data) + " "); recurse ` + child + ` => done`},
 				{Name: "line break", Guard: core.And(core.A("element"), core.A("br")), Outcome: `write "|\\/|" => done`},
+				{Name: "script or style: source code, not descended whatever its style says", Guard: core.And(core.A("element"), core.Or(core.A("script"), core.A("style"))), Outcome: "done"},
 				{Name: "hidden element: not descended", Guard: core.And(core.A("element"), core.Not(core.A("visible"))), Outcome: "done"},
 				{Name: "no children", Guard: core.A("children"), Outcome: "done"},
 				{Name: "visible element / other node: children are rendered", Guard: core.True(), Outcome: "recurse " + child + " => done"},
